@@ -475,3 +475,6 @@ def run(ctx):
     # ---- R11.5 the nearest matching ignore file decides, whitelist or ignore (walk owned by C03)
     ctx.rule("R11.5", "a negated (whitelist) match of a nearer ignore file ends the search just as an ignore match does")
     ctx.borrow("C03", ["R03.2"], "R11.5", "match_path returns the first node that decides, walking from the nearest directory up")
+
+    ctx.rule("R11.6", "when two loaded ignore files of one directory disagree the later-listed one decides: the files are compiled in listed order")
+    ctx.borrow("C03", ["R03.3"], "R11.6", "order-preserving load of IgnoreFilter::new, which GlobsetFilterer::new uses for its ignore files")
